@@ -498,11 +498,26 @@ def run_recorded(lib, world, side, case, pre, maybe, rng, probes, faults):
             raise
         raised = exc
     finally:
-        SIM.hooks.remove(recorder)
         SIM.hooks.remove(fail_fsync)
+        if not (sync_fault['fired'] and raised is not None and case.get('retry_same_handle', True)):
+            SIM.hooks.remove(recorder)
     if sync_fault['fired']:
         faults['fsync-eio'] = faults.get('fsync-eio', 0) + 1
         probes['fsync_fault_raised' if raised is not None else 'fsync_fault_swallowed'] = 1
+        if raised is not None and case.get('retry_same_handle', True):
+            # the application retries the call on the *same* handle once the fault has cleared (the handle may still
+            # hold what the failed attempt left in its session); images keep being taken during the retry
+            try:
+                world.step(victim)
+                probes['retry_same_handle_completed'] = 1
+            except Violation:
+                pass  # return values of a retried operation are not judged here, only the power-loss images are
+            except Exception as exc:  # pylint: disable=broad-except
+                if classify_exception(exc) != 'library':
+                    raise
+                probes['retry_same_handle_raised'] = 1
+            finally:
+                SIM.hooks.remove(recorder)
     if raised is not None and not sync_fault['fired']:
         # a fault-free victim must not raise
         raise Violation('unexpected-exception:' + type(raised).__name__, f'victim {victim["op"]}: {raised!r}\n{short_tb(raised)}'[:2000])
